@@ -67,8 +67,10 @@ func (o *noArgFunctionOperator) Next(ctx context.Context) ([]model.StepVector, e
 			StepTime: o.currentStep,
 		})
 		sv.T = o.currentStep
-		sv.Samples = []float64{result.V}
-		sv.SampleIDs = []uint64{}
+		// One value per step, identified like the value of a number literal, so
+		// that consumers which walk IDs and samples together see it.
+		sv.Samples = append(sv.Samples, result.V)
+		sv.SampleIDs = append(sv.SampleIDs, 0)
 
 		ret = append(ret, sv)
 		o.currentStep += o.step
